@@ -408,7 +408,7 @@ fn naming_case(i: u64) -> LmSpec {
 
 pub fn run(mut run: Run) -> ! {
     crate::core::silence_panics();
-    run.rule = "every member of finite LinearModel families (coefficient alphabet incl. -0.0, 1e-7, 1e9, 1/3 in objective/rows/rhs/offset; 11 domain forms; row-naming and variable-naming menus; min/max/satisfy; no-row models) is exported with to_lp_format() and read back by an independent reader; distinct = canonical model text; non-trivial = export was readable".into();
+    run.rule = "every member of finite LinearModel families (coefficient alphabet incl. -0.0, 1e-7, 1e9, 1/3 in objective/rows/rhs/offset; 11 domain forms; row-naming and variable-naming menus; min/max/satisfy; no-row models; plus the linear models compiled from the C02 objective family and the C01 constraint family) is exported with to_lp_format() and read back by an independent reader; distinct = canonical model text; non-trivial = export was readable".into();
     run.assume("independent reader of the CPLEX-LP subset (sections, optional row labels, signed terms with optional coefficients, objective constant, default bounds [0,+inf), free, +-infinity, Binary, General, End); numbers must round-trip exactly (Rust prints shortest round-trip decimals)");
     run.assume("a variable that occurs nowhere in the file (all-zero coefficients, default range) is tolerated and counted");
     for fam in families(run.quick()) {
@@ -422,6 +422,30 @@ pub fn run(mut run: Run) -> ! {
         let spec = naming_case(i);
         check_model(&spec, l);
     });
+    // linear models as the compiler produces them ($-prefixed auxiliaries, generated and user row names,
+    // tightened domains, offsets): the C02 objective family and the C01 constraint family at depth 1
+    {
+        let n = crate::props::c02::family_size_pub(1, true);
+        run.family("K-compiled-objective-models", n, |i, l| {
+            let case = crate::props::c02::family_pub(i, 1, true);
+            if let Ok(Ok(lm)) = crate::core::catch(|| case.model.compile()) {
+                if let Some(spec) = LmSpec::from_rooc(&lm) {
+                    l.count("compiled-models");
+                    check_model(&spec, l);
+                }
+            }
+        });
+        let na = crate::props::c01::family_a_size(1, true);
+        run.family("KA-compiled-constraint-models", na, |i, l| {
+            let case = crate::props::c01::family_a(i, 1, true);
+            if let Ok(Ok(lm)) = crate::core::catch(|| case.model.compile()) {
+                if let Some(spec) = LmSpec::from_rooc(&lm) {
+                    l.count("compiled-models");
+                    check_model(&spec, l);
+                }
+            }
+        });
+    }
     run.require("exports_read");
     run.finish()
 }
